@@ -85,6 +85,10 @@ def strat_history(draw, tier):
                                               0]))
         if kind in ("read", "write") and draw(st.integers(0, 9)) == 0:
             s["fail"] = True           # the machine does not answer
+        elif kind in ("read", "write") and draw(st.integers(0, 5)) == 0:
+            # the program has turned truncation warnings into exceptions, as
+            # the docstrings of read() and write() suggest
+            s["strict"] = True
         if kind == "with":
             # the block is left normally or by an exception of the program's
             s["leave"] = draw(st.sampled_from(["normal", "exception"]))
@@ -94,7 +98,11 @@ def strat_history(draw, tier):
                                           st.integers(1, 12))),
             "chip": draw(st.sampled_from([[0, 0], [1, 1]])),
             "tag": draw(st.sampled_from([0, 0, 3])),
-            "clear": draw(st.booleans()), "steps": steps}
+            "clear": draw(st.booleans()), "steps": steps,
+            # a second allocation of the same size on another chip, made
+            # right after the first one: every chip's heap starts at the
+            # same address, so the two views have the same base address
+            "twin": draw(st.integers(0, 3)) == 0}
 
 
 class _Leave(Exception):
@@ -161,6 +169,21 @@ def check_history(case):
         root.root = root
         views = [root]
         escaped_seek = False
+        twin = None
+        if case.get("twin") and case["size"]:
+            ox, oy = (1, 1) if (x, y) == (0, 0) else (0, 0)
+            ochip = m.chips[(ox, oy)]
+            with sut("sdram_alloc_as_filelike (another chip)"):
+                twin = mc.sdram_alloc_as_filelike(case["size"], case["tag"],
+                                                  ox, oy)
+                tbase = twin.address
+            require(tbase in ochip.allocs, "the second allocation is not on "
+                    "the chip that was named", {"address": tbase})
+            tn = min(case["size"], 9)
+            ochip.mem.write(tbase, bytes((37 * j + 11) & 0xff
+                                         for j in range(tn)))
+            classes.add("twin-same-address" if tbase == start
+                        else "twin-other-address")
         raised = result = caught = None
         for i, step in enumerate(case["steps"]):
             if case.get("forget_root") == i and len(views) > 1 and \
@@ -189,10 +212,14 @@ def check_history(case):
             failing = bool(step.get("fail"))
             if failing:
                 chip.silent = True
+            strict = bool(step.get("strict")) and not failing
             with warnings.catch_warnings(record=True) as caught:
                 warnings.simplefilter("always")
+                if strict:
+                    warnings.simplefilter("error", TruncationWarning)
                 try:
-                    with sut("view.%s" % kind, (OSError, ValueError)):
+                    with sut("view.%s" % kind, (OSError, ValueError) + (
+                            (TruncationWarning,) if strict else ())):
                         if kind == "seek":
                             if step["whence"] is None:
                                 v.obj.seek(step["n"])
@@ -224,7 +251,7 @@ def check_history(case):
                                 pass
                         elif kind == "free":
                             v.root.obj.free()
-                except (OSError, ValueError) as e:
+                except (OSError, ValueError, TruncationWarning) as e:
                     raised = e
             chip.silent = False
             from rig.machine_control.scp_connection import SCPError
@@ -294,6 +321,41 @@ def check_history(case):
                 continue
             L = len(v)
             inside = 0 <= v.pos <= L
+            if strict and kind in ("read", "write"):
+                classes.add("warnings-as-errors")
+                if kind == "read":
+                    n = step["n"]
+                    should = n is not None and n >= 0 and v.pos + n > L
+                else:
+                    should = len(base64.b64decode(step["data"])) > L - v.pos
+                refused = isinstance(raised, TruncationWarning)
+                if inside:
+                    require(refused == should, "truncation warning " +
+                            ("missing" if should else "emitted for a "
+                             "transfer that fits") + " (warnings turned "
+                            "into exceptions)", det)
+                if refused:
+                    # the call ended in the exception: whatever it did
+                    # before, the position has advanced by exactly the
+                    # bytes that were transferred
+                    moved = sum(e["arg2"] for e in m.log[log_at:]
+                                if e["cmd"] in (2, 3) and
+                                (e["x"], e["y"]) == (x, y))
+                    with sut("tell"):
+                        t = v.obj.tell()
+                    require(t - v.pos == moved, "a transfer refused with "
+                            "a truncation error moved %d bytes but the "
+                            "position advanced by %d" % (moved, t - v.pos),
+                            det)
+                    if kind == "write" and moved:
+                        data = base64.b64decode(step["data"])
+                        require(chip.mem.read(v.start + v.pos, moved) ==
+                                data[:moved], "the written prefix is not in "
+                                "memory at the view's position", det)
+                    v.pos = t
+                    classes.add("refused-truncation")
+                    nontrivial = True
+                    continue
             if kind == "seek":
                 wh = 0 if step["whence"] is None else step["whence"]
                 if wh == 3:
@@ -415,6 +477,22 @@ def check_history(case):
                     nv.start = nv.end = a
                 views.append(nv)
                 classes.add("slice-of-slice" if not v.is_root else "slice")
+        if twin is not None:
+            # whatever happened to the first allocation and its views, the
+            # view of the other chip's block is alive and well
+            with sut("the view of another chip's allocation"):
+                twin.seek(0)
+                got = twin.read(tn)
+                pos = twin.tell()
+            require(bytes(got) == bytes((37 * j + 11) & 0xff
+                                        for j in range(tn)) and pos == tn,
+                    "a view of another chip's allocation does not read its "
+                    "own memory after the history on the first view",
+                    {"got": bytes(got).hex(), "position": pos})
+            with sut("free() of the view of another chip's allocation"):
+                twin.free()
+            require(tbase not in ochip.allocs, "free() of the second view "
+                    "did not release its allocation", {})
         if m.violations:
             raise Violation("malformed command: %s" % m.violations[0][0],
                             m.violations[0][1])
